@@ -421,6 +421,10 @@ func (a *Analyzer) instrEffects(fn *ssa.Function, ins ssa.Instruction) {
 		if ins.Op == token.ARROW {
 			a.emit(fn, ins, "recv", "-", "recv")
 		}
+	case *ssa.Range:
+		if _, ok := ins.X.Type().Underlying().(*types.Map); ok {
+			a.emit(fn, ins, "maprange", "-", "maprange") // iteration order is random
+		}
 	case *ssa.Go:
 		a.emit(fn, ins, "go", "-", "go")
 		a.callEffects(fn, ins)
@@ -573,4 +577,47 @@ func (a *Analyzer) posOf(fn *ssa.Function, ins ssa.Instruction) (string, int) {
 	}
 	pos := a.fset.Position(p)
 	return filepath.Base(pos.Filename), pos.Line
+}
+
+// globalRefs lists, for every package-level variable of the five packages (and
+// any other global they mention), which of their functions mention it and in
+// which capacity.  Purely syntactic; JSON output only.
+func (a *Analyzer) globalRefs() map[string][]string {
+	set := map[string]map[string]bool{}
+	for _, fn := range a.allFns {
+		cat := "query"
+		switch {
+		case a.stateful[fn]:
+			cat = "stateful"
+		case a.exclFile[fn]:
+			cat = "hook"
+		case a.noBody[fn]:
+			cat = "nobody"
+		case a.initOnly[fn]:
+			cat = "initOnly"
+		}
+		for _, b := range fn.Blocks {
+			for _, ins := range b.Instrs {
+				for _, op := range ins.Operands(nil) {
+					g, ok := (*op).(*ssa.Global)
+					if !ok || strings.HasSuffix(g.Name(), "init$guard") {
+						continue
+					}
+					name := g.String()
+					if set[name] == nil {
+						set[name] = map[string]bool{}
+					}
+					set[name][cat+": "+fn.String()] = true
+				}
+			}
+		}
+	}
+	out := map[string][]string{}
+	for g, fns := range set {
+		for f := range fns {
+			out[g] = append(out[g], f)
+		}
+		sort.Strings(out[g])
+	}
+	return out
 }
